@@ -213,6 +213,8 @@ class Library:
         """base: Ptr to array/Vec, or SliceRef;  idx: usize or range object"""
         I = self.I
         sl = self.as_slice(base)
+        if type(idx) is L and idx.tag == 'RangeFull':
+            return SliceRef(sl.c, sl.start, sl.len, sl.is_str)
         if type(idx) is L and idx.tag in ('Range', 'RangeTo', 'RangeFrom', 'RangeIncl'):
             if idx.tag == 'Range':
                 s, e = idx[0], idx[1]
@@ -278,6 +280,11 @@ class Library:
         return deco
 
     def named_const(self, name):
+        m = re.match(r'^<std::mem::MaybeUninit<\[(\w+); (\d+)\]> as std::mem::SizedTypeProperties>::(ALIGN|SIZE)$', name)
+        if m:
+            ty = parse_type(m.group(1))
+            sz = max(1, (ty.bits or 8) // 8)
+            return sz if m.group(3) == 'ALIGN' else sz * int(m.group(2))
         raise Unsupported('unknown constant %s' % name)
 
     # ------------------------------------------------------------ registration
@@ -389,6 +396,66 @@ class Library:
                 n += 1
             return n
 
+        @reg(r'^<.* as Iterator>::collect::<Option<Vec<', 'Iterator::collect::<Option<Vec>> (None as soon as one item is None)')
+        def _collect_opt(fr, name, args, ops):
+            it = args[0]
+            vals = []
+            all_some = 1
+            while True:
+                ok, v = self.it_next(it)
+                if not ok:
+                    break
+                if v is DEAD:
+                    return DEAD
+                # v: Option<T> in either representation
+                d = v[0]
+                some = T.eq(64, d, 1)
+                all_some = T.land(all_some, some)
+                vals.append(self.payload(v, 1) if (type(d) is not int or d == 1) else 0)
+                if type(all_some) is int and not all_some:
+                    break
+            if type(all_some) is int:
+                if not all_some:
+                    return self.none()
+                return self.some(I.mk([I.mk(vals, 'buf'), len(vals)], 'Vec'))
+            return I.mk([T.zext(1, 64, all_some), I.mk([I.mk(vals, 'buf'), len(vals)], 'Vec')], 'enum')
+
+        @reg(r'^Result::<.*>::ok$', 'Result::ok')
+        def _res_ok(fr, name, args, ops):
+            o = args[0]
+            d = o[0]
+            if type(d) is int:
+                return self.some(o[1]) if d == 0 else self.none()
+            if o.tag == 'symenum':
+                raise Unsupported('Result::ok on a variant-map enum')
+            return I.mk([T.zext(1, 64, T.eq(64, d, 0)), o[1]], 'enum')
+
+        @reg(r'^Option::<.*>::and_then::<', 'Option::and_then')
+        def _and_then(fr, name, args, ops):
+            o, f = args
+            d = o[0]
+            if type(d) is int:
+                if d == 0:
+                    return self.none()
+                return I.call_closure(fr, f, [o[1]])
+            raise Unsupported('and_then on a symbolic Option')
+
+        @reg(r'^Option::<.*>::unwrap_or_default$', 'Option::unwrap_or_default')
+        def _unwrap_or_default(fr, name, args, ops):
+            o = args[0]
+            m_ = re.match(r'^Option::<(.*)>::unwrap_or_default$', name)
+            inner = m_.group(1)
+            if inner.startswith('Vec<'):
+                default = I.mk([I.mk([], 'buf'), 0], 'Vec')
+            elif inner == 'String':
+                default = self.new_string([])
+            else:
+                raise Unsupported('unwrap_or_default for %s' % inner)
+            d = o[0]
+            if type(d) is int:
+                return o[1] if d == 1 else default
+            return I.merge(T.eq(64, d, 1), self.payload(o, 1), default, None)
+
         @reg(r'^<.* as Iterator>::collect::<Vec<', 'Iterator::collect::<Vec>')
         def _collect(fr, name, args, ops):
             it = args[0]
@@ -476,9 +543,19 @@ class Library:
                 buf = I.mk([e] * n, 'buf')
             return I.mk([buf, n], 'Vec')
 
+        def seq_len(items):
+            n = 0
+            for it in items:
+                if type(it) is Guarded:
+                    n = T.add(64, n, T.ite(64, it.cond, seq_len(it.items), 0))
+                else:
+                    n = T.add(64, n, 1)
+            return n
+        self.seq_len = seq_len
+
         @reg(r'^Vec::<.*>::len$', 'Vec::len')
         def _vec_len(fr, name, args, ops):
-            return len(self.deref(args[0])[0])
+            return seq_len(self.deref(args[0])[0])
 
         @reg(r'^Vec::<.*>::is_empty$', 'Vec::is_empty')
         def _vec_is_empty(fr, name, args, ops):
@@ -729,6 +806,25 @@ class Library:
         def _ne(fr, name, args, ops):
             r = I.call(fr, name[:-4] + '::eq', args, ops)
             return T.lnot(r)
+
+        # ---- Box<[T; N]>::new_uninit + box_assume_init_into_vec_unsafe  (the expansion of vec![a, b, ..])
+        @reg(r'^Box::<\[.*\]>::new_uninit$', 'Box::new_uninit (vec! literal)')
+        def _box_new(fr, name, args, ops):
+            value = I.mk([None])                                   # MaybeDangling<[T; N]>
+            mu = I.mk([UNIT, I.mk([value])])                        # MaybeUninit { uninit: (), value: ManuallyDrop(..) }
+            holder = I.mk([mu])
+            ptr = Ptr(holder, 0)
+            return I.mk([I.mk([I.mk([ptr], 'NonNull')], 'Unique')], 'Box')
+
+        @reg(r'^std::boxed::box_assume_init_into_vec_unsafe::<', 'box_assume_init_into_vec_unsafe (vec! literal)')
+        def _box_into_vec(fr, name, args, ops):
+            b = args[0]
+            ptr = b[0][0][0]
+            arr = ptr.c[ptr.k][1][0][0]
+            if type(arr) is not L:
+                raise Unsupported('vec! literal was not initialised')
+            buf = I.mk(list(arr), 'buf')
+            return I.mk([buf, len(buf)], 'Vec')
 
         @reg(r'^std::f64::<impl f64>::round$|^core::f64::<impl f64>::round$', 'f64::round (half away from zero)')
         def _f_round(fr, name, args, ops):
